@@ -15,6 +15,8 @@ pub mod c04;
 #[cfg(feature = "c05")]
 pub mod c05;
 
+#[cfg(feature = "c06")]
+pub mod c06;
 #[cfg(feature = "c07")]
 pub mod c07;
 
@@ -47,6 +49,9 @@ pub mod c19g;
 
 #[cfg(feature = "c20")]
 pub mod c20;
+#[cfg(feature = "c20")]
+#[path = "gen/c20.rs"]
+pub mod c20g;
 
 #[cfg(feature = "replay")]
 #[cfg(kani)]
